@@ -77,6 +77,7 @@ def gen_cases(tier, seed):
     yield {"kind": "mixed"}
     yield {"kind": "layout"}
     yield {"kind": "jump"}
+    yield {"kind": "baseline"}
 
 
 def mjd_time(m):
@@ -715,6 +716,82 @@ def jump_case(case, res):
     res.sample({"jumps": "0.3, 1e-6, 1e-3, 1e-4 cycle"}, 1)
 
 
+def baseline_case(case, res):
+    """Two sessions a year (and eight years) apart in one file: times a few nanoseconds past the junction inside the LATER session
+    (far from the file's first span, where seconds-since-start are coarse); and a predictor whose rows are removed / whose spans
+    are changed in place after its intervals were read."""
+    zeros = ["0.00000000000000000e+00"] * 3
+    for gap_days in (365, 3000):
+        ents = []
+        for sess, d0 in enumerate((0, gap_days)):
+            for k in (0, 1):
+                tm = F(58000) + d0 + F(1, 4) + k * F(90, 1440)
+                cs = [f"{0.1 * (2 * sess + k):.17e}"] + zeros[1:]
+                r = F(1000) + 100 * 60 * (tm - F(58000) - F(1, 4)) * 1440
+                ents.append(polyco.Entry("J0000+00", f"{float(tm):.11f}", f"{r.numerator // r.denominator}.000000", "100.000000000000", "ao", 90,
+                                         cs, "1400.000", "12.345000"))
+        p = pb.PhasePredictor.from_polyco(io.StringIO("".join(e.text() for e in ents)))
+        res.transitions += 1
+        res.traces += 1
+        ns = F(1, 86400 * 10 ** 9)
+        for sess in (0, 1):
+            e0, e1 = ents[2 * sess], ents[2 * sess + 1]
+            for dn in (1, 2, 10, 100, -1, -10):
+                m = e0.stop + dn * ns
+                t = mjd_time(m)
+                me = exact_mjd(t)
+                cs_ = [e for e in ents if e.contains(me)]
+                if not cs_:
+                    continue
+                sub = {"gap_days": gap_days, "session": sess, "ns past the junction": dn}
+                res.transitions += 1
+                res.state(("baseline", gap_days, sess, dn))
+                try:
+                    got = phase_exact_of(p(t))[0]
+                except Exception as ex:
+                    res.violation("baseline|raised", f"{type(ex).__name__}: {ex} [{sub}]", case, sub)
+                    continue
+                err = min(abs(got - c.phase(me)) for c in cs_)
+                if err > budget(e0.f0):
+                    res.violation("baseline|entry just past a junction far from the start of the file", f"sessions {gap_days} d apart: "
+                                  f"p(junction {dn:+d} ns) of session {sess} is {float(err):.3g} cycle from the formula of every entry "
+                                  f"whose span contains the time", case, sub)
+                else:
+                    res.hits["junction times far from the start of the file"] += 1
+    # the table edited in place AFTER the intervals were read
+    ents = polyco.make_entries(3, "gap10min", 90, "641.928232294317", "146750669817.214345", 5, "e")
+    for what, edit, keep in (("remove_row(0)", lambda q: q.remove_row(0), [1, 2]), ("remove_rows([0, 2])", lambda q: q.remove_rows([0, 2]), [1]),
+                             ("no edit", lambda q: None, [0, 1, 2])):
+        p = pb.PhasePredictor.from_polyco(io.StringIO("".join(e.text() for e in ents)))
+        _ = (p.intervals, p(mjd_time(ents[0].tmid)))
+        res.transitions += 2
+        res.state(("edited", what))
+        try:
+            edit(p)
+            iv = [(exact_mjd(a), exact_mjd(b)) for a, b in p.intervals]
+        except Exception as ex:
+            res.violation("edited table|raised", f"{what}: {type(ex).__name__}: {ex}", case, {"edit": what})
+            continue
+        want = polyco.merged_intervals([ents[i] for i in keep])
+        us = F(1, 86400 * 10 ** 6)
+        if len(iv) != len(want) or any(abs(a - c) > us or abs(b - d) > us for (a, b), (c, d) in zip(iv, want)):
+            res.violation("edited table|stale intervals", f"after reading the intervals and then {what}: {len(iv)} interval(s), the "
+                          f"remaining rows cover {len(want)}", case, {"edit": what})
+            continue
+        for i in range(3):
+            if i in keep:
+                continue
+            try:
+                p(mjd_time(ents[i].tmid))
+                res.violation("edited table|time of a removed row accepted", f"after {what} a time inside the removed span {i} is "
+                              f"still predicted", case, {"edit": what})
+            except ValueError:
+                res.hits["table edited in place after its intervals were read"] += 1
+            except Exception as ex:
+                res.violation("edited table|wrong exception", f"{type(ex).__name__}: {ex}", case, {"edit": what})
+    res.sample({"baseline": "sessions 365 and 3000 days apart; rows removed in place"}, 1)
+
+
 def mixed_case(case, res):
     a = polyco.make_entries(2, "touch", 90, "641.928232294317", "146750669817.214345", 12, "e")
     variants = {
@@ -741,7 +818,7 @@ def mixed_case(case, res):
 
 def check_case(case):
     res = report.Result()
-    {"gen": gen_case, "shipped": shipped_case, "mixed": mixed_case, "long": long_case, "tmid_family": tmid_family_case, "layout": layout_case, "jump": jump_case}[case["kind"]](case, res)
+    {"gen": gen_case, "shipped": shipped_case, "mixed": mixed_case, "long": long_case, "tmid_family": tmid_family_case, "layout": layout_case, "jump": jump_case, "baseline": baseline_case}[case["kind"]](case, res)
     return res
 
 
@@ -754,7 +831,8 @@ def main(argv=None):
                        "times within 300 ns of a junction, inside the neighbouring span only", "long contiguous file",
                        "time_at: p(time_at(ph)) compared with ph in cycles", "time_at on a dense family late in a long interval",
                        "empty subset: everything is outside", "one-entry files on a day's grid of TMIDs", "text layouts", "phase inside a junction jump refused",
-                       "phase next to a junction jump inverted"],
+                       "phase next to a junction jump inverted", "junction times far from the start of the file",
+                       "table edited in place after its intervals were read"],
         assumptions=["decimal strings of the text are the exact inputs; time is the exact (jd1, jd2) of the Time object; budget "
                      "1e-8 cycle + F0*86400*2^-51", "times inside a < 1 ms gap between spans and exactly on a span end are "
                      "unconstrained (grid uses ends +-1 us)", "time_at is exercised only where the prediction is continuous"],
